@@ -47,12 +47,16 @@ def read_incidence_matrix(
     >>> # H = xgi.read_incidence_matrix("test.csv", delimiter=",")
 
     """
-    return from_incidence_matrix(
-        np.loadtxt(
+    if delimiter is not None and len(delimiter) > 1:
+        # np.loadtxt only accepts one-character delimiters (np.savetxt accepts any string)
+        with open(path, encoding=encoding) as file:
+            lines = [line.replace(delimiter, "\t") for line in file]
+        data = np.loadtxt(lines, comments=comments, delimiter="\t", ndmin=2)
+    else:
+        data = np.loadtxt(
             path, comments=comments, delimiter=delimiter, encoding=encoding, ndmin=2
-        ),
-        create_using=create_using,
-    )
+        )
+    return from_incidence_matrix(data, create_using=create_using)
 
 
 def write_incidence_matrix(H, path, delimiter=" ", encoding="utf-8"):
